@@ -137,7 +137,7 @@ def handle (j : Json) : Json :=
                                    ("schema", Json.arr (t.schema.map (fun x => Json.str (strOf x))).toArray),
                                    ("alias", match t.alias with | some n => Json.str (strOf n) | none => Json.null)]
          let hidden := [("select_star", Json.bool s'.selectStar),
-           ("star_tables", Json.arr (s'.starTables.map tref).toArray), ("sub_count", toJson s'.subCount)]
+           ("star_tables", Json.arr (s'.starTables.map tref).toArray), ("sub_count", toJson s'.subCount), ("return_star", Json.bool s'.returnStar)]
          match post with
          | none => Json.mkObj ([("sql", Json.str mine)] ++ hidden)
          | some pq =>
